@@ -24,7 +24,10 @@ class DataStream:
         Returns True if the given number of bytes can be extracted from the
         data. False otherwise.
         """
-        assert 0 < num_bytes, "must provide a positive, non-zero integer"
+        # Explicit raises, not assert statements: the range checks must also
+        # hold when python runs with assertions disabled (-O).
+        if not 0 < num_bytes:
+            raise AssertionError("must provide a positive, non-zero integer")
         return True if self.index + num_bytes <= self.size else False
 
     def inc_index(self, num_bytes: int) -> None:
@@ -32,7 +35,8 @@ class DataStream:
         Simply increments the current index. Useful when skipping over
         unused/reserved fields in the data stream.
         """
-        assert self.check_range(num_bytes), "range check failure"
+        if not self.check_range(num_bytes):
+            raise AssertionError("range check failure")
         self.index += num_bytes
 
     def get_mem(self, num_bytes: int) -> memoryview:
@@ -40,7 +44,8 @@ class DataStream:
         Returns a memoryview for the given number of bytes and increments the
         current index.
         """
-        assert self.check_range(num_bytes), "range check failure"
+        if not self.check_range(num_bytes):
+            raise AssertionError("range check failure")
         o_mv = self.data[self.index: self.index + num_bytes]
         self.inc_index(num_bytes)
         return o_mv
